@@ -1,6 +1,7 @@
 (* Non-vacuity of the C05 theorems and the recorded finding, by evaluation *)
 From Coq Require Import List NArith ZArith Bool.
 From SudachiVerif Require Import Model.Codec Proofs.CodecProofs.
+From SudachiVerif Require Model.CodecCheck Model.CodecIO.   (* keeps the case-file entry points in step with the facts *)
 Import ListNotations.
 Open Scope N_scope.
 
